@@ -8,7 +8,14 @@ import (
 	"time"
 )
 
+var debugCmds = map[string]func(args []string) int{}
+
 func dispatchExtra(cmd string, args []string) bool {
+	if f, ok := debugCmds[cmd]; ok {
+		code := f(args)
+		cleanupScratch()
+		os.Exit(code)
+	}
 	switch cmd {
 	case "check":
 		code := cmdCheck(args)
@@ -48,4 +55,15 @@ func runLimited(cmd *exec.Cmd) error {
 func cmdSelftest(args []string) int {
 	fmt.Println("selftest: see /verif/selftest/run.sh")
 	return 0
+}
+
+func init() {
+	debugCmds["c12family"] = func(args []string) int {
+		runs, devs, err := runC12Family(nil)
+		fmt.Println("runs:", runs, "err:", err)
+		for _, d := range devs {
+			fmt.Printf("%-50s %-12s %-22s %s\n", d.Rule, d.Placement, d.Plugin, d.Observed)
+		}
+		return 0
+	}
 }
